@@ -1,14 +1,17 @@
 #!/bin/bash
-# tools/try_seeded.sh <patch.diff> <check-id> [tier] ... : apply a seeded change to /repo, run checks, always undo.
+# tools/try_seeded.sh <patch.diff> <check-id>... : run checks against a seeded change.
+# The change is applied to a scratch worktree of /repo HEAD (VERIF_REPO points the checks at it), so /repo itself is
+# never modified while other work is running; evidence files are not rewritten (VERIF_NO_EVIDENCE=1).
 patch="$1"; shift
-cd /repo || exit 9
-if ! git diff --quiet; then echo "/repo has uncommitted changes; refusing"; exit 9; fi
-git apply "$patch" || { echo "patch does not apply"; exit 9; }
-trap 'git -C /repo checkout -- . ' EXIT
+wt=/tmp/seedrun.$$
+git -C /repo worktree add -q --detach $wt HEAD || exit 9
+trap 'git -C /repo worktree remove --force '$wt EXIT
+(cd $wt && git apply "$patch") || { echo "patch does not apply"; exit 9; }
 cd /verif
 tier="${TIER:-quick}"
 for id in "$@"; do
-  ./check "$id" "$tier" > /verif/.scratch/seeded.$id.log 2>&1
+  VERIF_REPO=$wt VERIF_NO_EVIDENCE=1 ./check "$id" "$tier" > /verif/.scratch/seeded.$id.$$.log 2>&1
   rc=$?
-  echo "== $id $tier exit=$rc: $(grep -c '^VIOLATION' /verif/.scratch/seeded.$id.log) VIOLATION lines; first: $(grep -A1 -m1 '^VIOLATION' /verif/.scratch/seeded.$id.log | tail -1 | cut -c1-220)"
+  echo "== $id $tier exit=$rc: $(grep -c '^VIOLATION' /verif/.scratch/seeded.$id.$$.log) VIOLATION lines; first: $(grep -A1 -m1 '^VIOLATION' /verif/.scratch/seeded.$id.$$.log | tail -1 | cut -c1-220)"
+  rm -f /verif/.scratch/seeded.$id.$$.log
 done
